@@ -43,6 +43,12 @@ void verif_out_raw(int ch);
 //! end of output_text()
 void verif_out_end();
 
+//! do_blank_lines(): start / one visited newline chunk / end; between begin and end every
+//! Chunk::SetNlCount() is recorded (verif_nl_write, declared in chunk.h)
+void verif_blank_begin();
+void verif_blank_visit(const Chunk *pc);
+void verif_blank_end();
+
 //! logs top-level add_char() calls, not the recursive ones
 struct verif_addchar_scope
 {
